@@ -54,6 +54,10 @@ func WriteTypes(fw *common.MatlabFileWriter, ns *dsl.Namespace, st dsl.SymbolTab
 func writeUnionClasses(fw *common.MatlabFileWriter, td dsl.TypeDefinition, unionGenerated map[string]bool) error {
 	var writeError error
 	dsl.Visit(td, func(self dsl.Visitor, node dsl.Node) {
+		if writeError != nil {
+			// keep the first error: a later union written successfully must not clear it
+			return
+		}
 		switch node := node.(type) {
 		case *dsl.GeneralizedType:
 			if node.Cases.IsUnion() {
